@@ -52,6 +52,14 @@ theorem C10_is_effective_tld (d : Str) (hne : d ≠ []) :
   obtain ⟨f, hd, hr⟩ := table_decodes
   rw [← hr]; exact isTld_of_decodes TABLE 8 f hd d hne
 
+/-- the PSL algorithm over the shipped list always yields between one label and all labels -/
+theorem C10_suffix_label_count (d : Str) :
+    1 ≤ suffixLabels RULES (revLabels d) ∧ suffixLabels RULES (revLabels d) ≤ (splitDots d).length := by
+  obtain ⟨f, hd, hr⟩ := table_decodes
+  obtain ⟨h1, h2, _⟩ := start_of_decodes TABLE 8 f hd d
+  rw [hr] at h1 h2
+  exact ⟨h1, h2⟩
+
 /-- **Shape**: the public suffix is the last `n` labels of the input for some `1 ≤ n ≤ #labels` — a
 suffix of the input cut at a label boundary — and the eTLD+1, when there is one, is the last `n+1`
 labels: exactly one more label. -/
